@@ -1,3 +1,140 @@
-(* C09/Props.v -- property theorems (placeholder) *)
-From Coq Require Import Reals List.
-From Verif Require Import Base.Num C09.Model C09.Proofs.
+(* C09/Props.v -- property theorems only; each is closed by [exact] of a lemma
+   of C09/Proofs.v (or Instances.v / Lists.v) and followed by Print Assumptions.
+
+   The model (C09/Model.v) is a deep embedding [fexpr] of the derived classes of
+   odl/solvers/functional/functional.py with [value] = f(x), [gradient] =
+   f.gradient(x), [derivative] = f.derivative(x)(d), [lipschitz] =
+   f.grad_lipschitz, [is_linear]; leaves and operators are records of functions.
+   It is the SAME polymorphic term that the correspondence shards execute at Q
+   against the implementation.  Here it is instantiated at R over ANY space
+   satisfying [SpaceLaws] (real vector space, symmetric positive semi-definite
+   form = the space's own inner product, bounded self-adjoint pointwise
+   multiplication): rn with any positive weighting, uniform_discr, product
+   spaces are instances (Instances.v, Lists.v). *)
+From Coq Require Import Reals List Bool.
+From Verif Require Import Base.Num C09.Model C09.IPS C09.Proofs C09.Instances.
+Local Open Scope R_scope.
+
+(* T1 (gradient rules, all trees).  For every expression tree, of any depth and
+   over any spaces, at every point of its domain of differentiability (all
+   leaves/operators sound at the arguments they receive, quotient divisors
+   non-zero) the modelled gradient is the Frechet gradient of the modelled value
+   in the space's own inner product:
+      f(x+h) - f(x) - <gradient e x, h> = o(|h|). *)
+Theorem gradient_rules_sound : forall (S : RSpace) (e : Rexpr S),
+  spaces_ok e -> forall x, smooth_at e x ->
+  forall eps, 0 < eps -> exists delta, 0 < delta /\
+    forall h, norm S h < delta ->
+      Rabs (value e (sadd S x h) - value e x - sinner S (gradient e x) h) <= eps * norm S h.
+Proof. exact grad_sound_all. Qed.
+Print Assumptions gradient_rules_sound.
+
+(* T1 (the property's first sentence).  inner(f.gradient(x), d) is the
+   directional derivative of t |-> f(x + t d) at 0 (std-library
+   derivable_pt_lim), and f.derivative(x)(d) is that same number. *)
+Theorem directional_derivative_all : forall (S : RSpace) (e : Rexpr S),
+  spaces_ok e -> forall x d, smooth_at e x ->
+  derivable_pt_lim (fun t => value e (sadd S x (sscal S t d))) 0 (sinner S (gradient e x) d)
+  /\ derivative e x d = sinner S (gradient e x) d.
+Proof. exact directional_all. Qed.
+Print Assumptions directional_derivative_all.
+
+(* T1 (Lipschitz propagation, all trees).  Whenever the propagated
+   grad_lipschitz of a tree is a finite number c, and every leaf with a finite
+   constant is bounded by it, c bounds |grad f(x) - grad f(y)| / |x - y|.
+   (FunctionalComp/Product/Quotient/RightVectorMult propagate nan, so nothing is
+   claimed for them -- as in the code.) *)
+Theorem lipschitz_propagation_sound : forall (S : RSpace) (e : Rexpr S),
+  SpaceLaws S -> lip_leaves_ok e ->
+  forall c, lipschitz e = LFin c ->
+  forall x y, norm S (ssub (gradient e x) (gradient e y)) <= c * norm S (ssub x y).
+Proof. exact lipschitz_sound_all. Qed.
+Print Assumptions lipschitz_propagation_sound.
+
+(* T1 (leaves with closed forms, any space): their premises hold. *)
+Theorem l2normsquared_sound : forall (S : RSpace), SpaceLaws S ->
+  (forall x, leaf_sound (leaf_l2sq S) x) /\
+  (forall k, lf_lip (leaf_l2sq S) = LFin k -> lip_bound S (lf_grad (leaf_l2sq S)) k).
+Proof. exact l2sq_sound_both. Qed.
+Theorem constant_functional_sound : forall (S : RSpace), SpaceLaws S -> forall c,
+  (forall x, leaf_sound (leaf_const S c) x) /\
+  (forall k, lf_lip (leaf_const S c) = LFin k -> lip_bound S (lf_grad (leaf_const S c)) k).
+Proof. exact const_sound_both. Qed.
+Theorem l2norm_sound : forall (S : RSpace), SpaceLaws S ->
+  forall x, norm S x <> 0 -> leaf_sound (leaf_l2 S) x.
+Proof. exact leaf_l2_sound. Qed.
+Theorem linear_form_sound : forall (S : RSpace), SpaceLaws S ->
+  forall b c x, leaf_sound (leaf_lin S b c) x.
+Proof. exact leaf_lin_sound. Qed.
+(* QuadraticForm(operator=A, vector=b, constant=c): gradient (A + adjoint A) x + b,
+   resp. 2 A x when the code finds `operator.adjoint == operator` *)
+Theorem quadratic_form_sound : forall (S : RSpace), SpaceLaws S ->
+  forall (A A' : car S -> car S) (selfadj : bool) (b : option (car S)) (c : R) x,
+  (forall u v, A (sadd S u v) = sadd S (A u) (A v)) ->
+  (exists C, 0 <= C /\ forall h, norm S (A h) <= C * norm S h) ->
+  (forall u v, sinner S (A u) v = sinner S u (A' v)) ->
+  (selfadj = true -> forall u, A' u = A u) ->
+  leaf_sound (leaf_quad S A A' selfadj b c) x.
+Proof. exact leaf_quad_sound. Qed.
+Print Assumptions quadratic_form_sound.
+Print Assumptions l2norm_sound.
+
+(* T1 (operators used in FunctionalComp): Frechet derivative + adjoint *)
+Theorem operators_sound : forall (S : RSpace), SpaceLaws S ->
+  (forall x, op_sound (op_id S) x) /\ (forall s x, op_sound (op_scal S s) x) /\
+  (forall v x, op_sound (op_mult S v) x) /\ (forall x, op_sound (op_square S) x).
+Proof. exact operators_sound_all. Qed.
+Theorem shifted_operator_sound : forall (S1 S2 : RSpace), SpaceLaws S2 ->
+  forall (A : Oper S1 S2) t x, op_sound A x -> op_sound (op_shift A t) x.
+Proof. exact op_shift_sound. Qed.
+Print Assumptions operators_sound.
+
+(* T1 (documented values of the overloads). *)
+Theorem translated_merges_soundly : forall (S : RSpace), SpaceLaws S ->
+  forall (e : Rexpr S) t x,
+  value (mk_translated e t) x = value e (ssub x t)
+  /\ gradient (mk_translated e t) x = gradient e (ssub x t)
+  /\ lipschitz (mk_translated e t) = lipschitz e.
+Proof. exact mk_translated_spec. Qed.
+Theorem scalar_left_mult_value : forall (S : RSpace) (e : Rexpr S) s x,
+  value (f_rmul_scalar s e) x = s * value e x.
+Proof. exact f_rmul_scalar_value. Qed.
+Theorem difference_value : forall (S : RSpace) (e g : Rexpr S) x,
+  value (f_sub e g) x = value e x - value g x.
+Proof. exact f_sub_value. Qed.
+Theorem bregman_documented_value : forall (S : RSpace), SpaceLaws S ->
+  forall (e : Rexpr S) p s x,
+  value (FBregman e p s) x = value e x - value e p - sinner S s (ssub x p).
+Proof. exact bregman_value. Qed.
+
+(* f * s is documented as x |-> f(s x).
+   FULL STATEMENT (for the code as it is, variant v_qp_lin_const = false):
+     forall S e s x, SpaceLaws S -> lin_flags_ok e ->
+       value (f_mul_scalar (mkVariants false) e s) x = value e (sscal S s x)
+   is FALSE of the faithful model: FunctionalQuadraticPerturb(linear f, constant=c)
+   keeps is_linear = True for c <> 0, so Functional.__mul__ builds s*f instead of
+   f(s .)  (finding C09/quadraticperturb-linear-flag-constant). *)
+Theorem argument_scaling_value_refuted :
+  exists (S : RSpace) (e : Rexpr S) (s : R) (x : car S), SpaceLaws S /\
+    value (f_mul_scalar (mkVariants false) e s) x <> value e (sscal S s x).
+Proof. exact qp_mul_scalar_refuted. Qed.
+(* partial: exact precondition = every tree flagged linear is homogeneous *)
+Theorem argument_scaling_value_partial : forall (S : RSpace), SpaceLaws S ->
+  forall vs (e : Rexpr S) s x,
+  (is_linear vs e = true -> forall a y, value e (sscal S a y) = a * value e y) ->
+  value (f_mul_scalar vs e s) x = value e (sscal S s x).
+Proof. exact f_mul_scalar_value. Qed.
+(* with the repaired flag the precondition holds for all trees *)
+Theorem argument_scaling_value_repaired : forall (S : RSpace) (e : Rexpr S),
+  SpaceLaws S -> lin_flags_ok e -> forall s x,
+  value (f_mul_scalar (mkVariants true) e s) x = value e (sscal S s x).
+Proof. exact f_mul_scalar_repaired. Qed.
+Print Assumptions argument_scaling_value_repaired.
+
+(* Non-vacuity: rn(1, weighting=w) satisfies the laws for every w > 0, and a
+   tree using all eleven constructors satisfies every premise at every point. *)
+Example laws_satisfiable : forall w, 0 < w -> SpaceLaws (R1 w).
+Proof. exact R1_laws. Qed.
+Example premises_satisfiable : forall w, 0 < w ->
+  spaces_ok (demo_tree w) /\ (forall x, smooth_at (demo_tree w) x) /\ lip_leaves_ok (demo_tree w).
+Proof. exact demo_tree_ok. Qed.
